@@ -1,4 +1,5 @@
 """C18 - parallelize delivers every row exactly once under every schedule (E3 schedule explorer)."""
+import sys
 import time
 import itertools
 
@@ -222,6 +223,58 @@ def run_task(task):
                         'wall_s': round(time.time() - t0, 1)}}
 
 
+FREE_SCRIPT = r'''
+import sys, json, os
+sys.path.insert(0, sys.argv[1])
+from dataflows import Flow, parallelize
+N, R, mask = int(sys.argv[2]), int(sys.argv[3]), int(sys.argv[4])
+def f(row):
+    row['n'] += 1
+def pred(row):
+    return bool(mask >> row['i'] & 1)
+rows = [{'i': k, 'n': 0} for k in range(R)]
+res = Flow(rows, parallelize(f, N, predicate=pred)).results()[0]
+out = sorted(res[0], key=lambda r: r['i']) if res else []
+sys.stdout.write(json.dumps(out)); sys.stdout.flush()
+os._exit(0)
+'''
+
+
+def free_run(cfg):
+    """One free-running execution with the real multiprocessing/threading primitives, in its own session, output to a
+    file, hard kill after the horizon (a hang is a verdict, not a harness error)."""
+    import os, json, signal, subprocess, tempfile
+    with core.scratch_dir() as d:
+        script = os.path.join(d, 'free.py')
+        open(script, 'w').write(FREE_SCRIPT)
+        outp = os.path.join(d, 'out.txt')
+        with open(outp, 'w') as fo, open(os.path.join(d, 'err.txt'), 'w') as fe:
+            p = subprocess.Popen([sys.executable, script, core.REPO, str(cfg['N']), str(cfg['R']), str(cfg['mask'])],
+                                 stdout=fo, stderr=fe, start_new_session=True, cwd=d)
+            try:
+                rc = p.wait(timeout=60)
+                hung = False
+            except subprocess.TimeoutExpired:
+                hung, rc = True, None
+            try:
+                os.killpg(p.pid, signal.SIGKILL)
+            except Exception:
+                pass
+        txt = open(outp).read()
+    viol = []
+    label = 'real multiprocessing, N=%d R=%d mask=%s' % (cfg['N'], cfg['R'], bin(cfg['mask']))
+    if hung:
+        viol.append(('free-run-hang', '%s: did not terminate within 60 s' % label, {'free': cfg}))
+    else:
+        try:
+            got = json.loads(txt)
+        except Exception:
+            got = None
+        if got != expected(cfg):
+            viol.append(('free-run-delivery', '%s: delivered %r, expected %r' % (label, got, expected(cfg)), {'free': cfg}))
+    return {'n': 1, 'key': h(['free', cfg]), 'outcome': 'free-run', 'viol': viol, 'traces': 0}
+
+
 def tasks(tier):
     out = []
 
@@ -299,6 +352,11 @@ def run(run):
             if sm['capped']:
                 run.caps.append('%s capped at %d executions' % (cj(sm['cfg']), sm['executions']))
         run.absorb(res)
+    # free-running pass on the real primitives: the virtual layer's outcomes must include what really happens
+    frees = [{'N': 2, 'R': 3, 'mask': 5}] if run.tier == 'quick' else \
+        [{'N': n, 'R': r, 'mask': m} for n in (1, 2, 4) for r, m in ((0, 0), (1, 1), (3, 5), (6, 63), (6, 0))]
+    for cfg in frees:
+        run.absorb(free_run(cfg))
     multi = [s for s in summaries if s['delivery_orders'] > 1]
     run.extra['per_configuration'] = sorted(summaries, key=lambda s: cj([s['mode'], s['cfg']]))
     run.extra['configurations_with_several_delivery_orders'] = len(multi)
@@ -318,6 +376,8 @@ def run(run):
 
 
 def replay(w):
+    if 'free' in w:
+        return free_run(w['free'])['viol']
     cfg = w['cfg']
     s, result, exc, deadlock = execute(cfg, w['choices'], line=w['mode'].startswith('line'), seam=w.get('seam', 'fork'))
     out = [('%s/%s' % (o, w['mode']), what, w) for o, what in judge(cfg, s, result, exc, deadlock, w.get('seam', 'fork'))]
